@@ -26,9 +26,10 @@ MIXES = {
     "cre_upd": ([R("create", "1"), R("update", "1", "s1")], [R("", "1", "s1")]),
     "cre3_same": ([R("create", "1"), R("create", "1"), R("create", "1")], []),
     "upd_upd_rech": ([R("update", "1", "s1"), R("update", "1", "s1"), R("recharge", "1")], [R("", "1", "s1")]),
+    "rel_cre": ([R("release", "1", "s1"), R("create", "1")], [R("", "1", "s1")]),
     "upd_rel_cre": ([R("update", "1", "s1"), R("release", "1", "s1"), R("create", "1")], [R("", "1", "s1")]),
 }
-QUICK = ["upd_upd", "upd_rel", "upd_rech", "cre_cre_same", "cre_cre_diff", "cre_upd"]
+QUICK = ["upd_upd", "upd_rel", "upd_rech", "cre_cre_same", "cre_cre_diff", "cre_upd", "rel_cre"]
 
 
 def tla_req(r):
@@ -165,7 +166,7 @@ def create_phase(pid, tier):
     through the hooks and run ungated; references must be unique and keep designating their session."""
     def phase(sc, v):
         rnd = random.Random(core.seed())
-        names = ["cre_cre_same", "cre_cre_diff"] + (["cre3_same", "upd_rel_cre"] if tier == "thorough" else [])
+        names = ["cre_cre_same", "cre_cre_diff", "rel_cre"] + (["cre3_same", "upd_rel_cre"] if tier == "thorough" else [])
         cases = []
         states = 0
         for name in names:
